@@ -383,6 +383,10 @@ SCENARIOS = [
                          ("after", 2, ">", 6600, 0), ("before", 1, "<", 4800, 0)]),
     dict(label="time rules before, at and after a control instant, nothing changes", T=2 * T0, prev=T0, r=600, k0=7, first=False, real=True,
          pres=[("c", 2, 1800, 0)], rules=[("at_first", 1, "=", 4100, 0), ("at_second", 2, "=", 4800, 0), ("at_off_grid", 3, "=", 5000, 0), ("at_last", 1, "=", 7200, 0)]),
+    dict(label="last hydraulic solution between two rule instants (partial step at 3700 s): `=` rules timed before and after it, nothing changes", T=2 * T0, prev=3700, r=600, k0=7,
+         first=False, real=True, pres=[],
+         rules=[("before_solution", 1, "=", 3650, 0), ("at_solution", 2, "=", 3700, 0), ("after_solution", 3, "=", 3900, 0), ("at_previous_instant", 1, "=", 3600, 0),
+                ("next_window", 2, "=", 4201, 0)]),
     dict(label="an `=` rule off the rule grid changes the network at the first rule instant after its time", T=2 * T0, prev=T0, r=600, k0=7, first=False, real=True,
          pres=[("late", 1, 600, 1)], rules=[("earlier", 2, "=", 4700, 0), ("acting", 1, "=", 5000, 1)]),
 ]
@@ -544,8 +548,6 @@ def scheduler_rules(repo, chk, order="R-C04-3", clock="R-C04-4", time="R-C04-6")
             world.log_state["log_level"] = log_level
             sim, wn = simulator_instance(world, box, sc["T"], sc["r"], sc["k0"], sc["pres"], sc["rules"], prev=sc.get("prev"))
             prev0 = wn._prev_sim_time
-            if sc["k0"] * sc["r"] <= sc["T"] and prev0 > (sc["k0"] - 1) * sc["r"]:
-                raise ExtractError("scenario %r: the last solution must not lie after the rule instant before the first one evaluated" % sc["label"])
             label = sc["label"] + (" [trace logging on]" if log_level == 1 else "")
             want = scheduler_oracle(sc)
             runaway = None
@@ -1384,8 +1386,8 @@ WITNESSES = [
     dict(name='rule-window-not-restored',
          file=CORE,
          rule='R-C04-4',
-         old='        saved = self._wn._prev_sim_time\n        prev_rule_time = (self._rule_iter - 2) * self._wn.options.time.rule_timestep\n        self._wn._prev_sim_time = max(saved, prev_rule_time)\n        try:\n            return self._rules.check()\n        finally:\n            self._wn._prev_sim_time = saved\n',
-         new='        prev_rule_time = (self._rule_iter - 2) * self._wn.options.time.rule_timestep\n        self._wn._prev_sim_time = max(self._wn._prev_sim_time, prev_rule_time)\n        return self._rules.check()\n'),
+         old='        saved = self._wn._prev_sim_time\n        prev_rule_time = (self._rule_iter - 2) * self._wn.options.time.rule_timestep\n        self._wn._prev_sim_time = prev_rule_time\n        try:\n            return self._rules.check()\n        finally:\n            self._wn._prev_sim_time = saved\n',
+         new='        prev_rule_time = (self._rule_iter - 2) * self._wn.options.time.rule_timestep\n        self._wn._prev_sim_time = prev_rule_time\n        return self._rules.check()\n'),
     dict(name='quiet-le-spelled-not-greater',
          file=CTRL,
          silent=True,
@@ -1399,6 +1401,17 @@ WITNESSES = [
     dict(name='quiet-rule-window-inlined-from-sim-time',
          file=CORE,
          silent=True,
-         old='        saved = self._wn._prev_sim_time\n        prev_rule_time = (self._rule_iter - 2) * self._wn.options.time.rule_timestep\n        self._wn._prev_sim_time = max(saved, prev_rule_time)\n        try:\n            return self._rules.check()\n        finally:\n            self._wn._prev_sim_time = saved\n',
-         new='        model = self._wn\n        last_solution = model._prev_sim_time\n        previous_instant = model.sim_time - model.options.time.rule_timestep\n        model._prev_sim_time = previous_instant if previous_instant > last_solution else last_solution\n        triggered = self._rules.check()\n        model._prev_sim_time = last_solution\n        return triggered\n'),
+         old='        saved = self._wn._prev_sim_time\n        prev_rule_time = (self._rule_iter - 2) * self._wn.options.time.rule_timestep\n        self._wn._prev_sim_time = prev_rule_time\n        try:\n            return self._rules.check()\n        finally:\n            self._wn._prev_sim_time = saved\n',
+         new='        model = self._wn\n        last_solution = model._prev_sim_time\n        model._prev_sim_time = model.sim_time - model.options.time.rule_timestep\n        triggered = self._rules.check()\n        model._prev_sim_time = last_solution\n        return triggered\n'),
+    # ---- /repo 1cd01e3e: the window starts at the previous rule instant even when the last hydraulic solution is later (partial step between two rule instants)
+    dict(name='rule-window-starts-at-a-later-solution',
+         file=CORE,
+         rule='R-C04-4',
+         old='        self._wn._prev_sim_time = prev_rule_time\n        try:\n            return self._rules.check()\n',
+         new='        self._wn._prev_sim_time = max(saved, prev_rule_time)\n        try:\n            return self._rules.check()\n'),
+    dict(name='quiet-rule-window-start-hoisted',
+         file=CORE,
+         silent=True,
+         old='        prev_rule_time = (self._rule_iter - 2) * self._wn.options.time.rule_timestep\n        self._wn._prev_sim_time = prev_rule_time\n',
+         new='        step = self._wn.options.time.rule_timestep\n        self._wn._prev_sim_time = self._rule_iter * step - 2 * step\n'),
 ]
